@@ -61,6 +61,11 @@ class FS:
         self.one_per_read = False
         self.errno = 0
         self.fds_open = 0
+        # transient failure of one inotify_add_watch call made after start-up (the entry changed under the library's feet)
+        self.armed = False
+        self.nadd = 0
+        self.fault_n = 0
+        self.fault_errno = errno.ENOENT
 
     # ------------------------------------------------------------------ helpers
     def exists(self, p):
@@ -176,6 +181,11 @@ class FS:
         self.fds_open = self.fds_open - 1
 
     def add_watch(self, fd, path, mask):
+        if self.armed:
+            self.nadd = self.nadd + 1
+            if self.nadd == self.fault_n:
+                self.errno = self.fault_errno
+                return -1
         path = norm(path)
         if path not in self.kind:
             self.errno = errno.ENOENT
